@@ -212,6 +212,18 @@ MATCHERS = {
 }
 
 
+def classify_case(v, case):
+    """whole-run cases (checks/runcheck.py): id of the known finding that explains violation v of `case`, or None"""
+    known = {f["id"] for f in load() if f.get("status") == "known"}
+    # D25: the ledger comparisons of an isolation case whose strategies filter the same file differently (each stream
+    # replays the market in turn, on the shared Market object); that every strategy is attached to a stream carrying
+    # its own filter is a separate formula (OwnStreamFilter) which the finding does not explain
+    if "D25" in known and case and case.get("kind") == "iso" and case.get("filters_differ") and v["prop"] == "C13" \
+            and v["name"] in ("SameAloneAndTogether", "RegistrationOrderIrrelevant", "OtherStrategyToo"):
+        return "D25"
+    return None
+
+
 def classify(violations, traces_by_id):
     """-> (unexplained violations, {finding id: [violations]})"""
     known = [f for f in load() if f.get("status") == "known"]
